@@ -154,3 +154,19 @@ Definition ex_input : val :=
                   VL [VZ 1; VZ 0]; VL [VZ 1; VZ 4096]; VL [VZ 0; VB [120;45;97]; VB [255;0;1]; VZ 0]; VL [VZ 2]]].
 Lemma ex_input_wf : wf_C30 ex_input = true /\ agree_C30 ex_input (run_C30 ex_input) = true.
 Proof. vm_compute. split; reflexivity. Qed.
+
+(* ---- the same for the byte-trie Huffman decoder, through huff_decode_eq_spec ---- *)
+From Bfe Require Import proofs.HuffmanEquivProofs.
+Lemma hd_ok_trie : hd_ok huff_decode.
+Proof.
+  intros s Hs. destruct (huff_encode_facts s Hs) as [Hw _].
+  rewrite (huff_decode_eq_spec _ Hw). apply huff_roundtrip. exact Hs.
+Qed.
+Theorem C30_central_trie_lemma i : wf_C30 i = true -> prop_C30 i (run_C30_hd huff_decode i) = true.
+Proof.
+  unfold wf_C30, prop_C30, run_C30_hd. intros Hwf.
+  destruct (decode_input i) as [[L ops]|]; [|discriminate].
+  apply andb_true_iff in Hwf. destruct Hwf as [Hwf Hops]. apply andb_true_iff in Hwf. destruct Hwf as [HL1 HL2].
+  destruct (sequence_roundtrip_closed huff_decode L ops hd_ok_trie ltac:(lia) Hops) as [out [Hr Hb]].
+  unfold run_C30_with in Hr. destruct (init_enc L); [|discriminate]. rewrite Hr. exact Hb.
+Qed.
